@@ -381,3 +381,45 @@ def c15_cache_invariant():
     partial = {"ex": z3.BoolVal(True), "mt": t, "v": v_f, "ok": z3.BoolVal(False)}
     out.append(("non-atomic-write-would-break-it", [t > mt_f], z3.Not(FI(partial, mt_f, v_f))))
     return out
+
+
+def c08_unedited_scaffold_is_found_whole():
+    """C08 over the contracts of find_overlaps and trim_large_overhangs: if the Pretext map presents an input
+    scaffold whole (bait [1, E] with |E - T| < bp per texel, T the scaffold length) and its last contig is at
+    least one texel long (first and last rows contigs), the lookup returns all rows with span [1, T] and the
+    large-overhang trim (error length 1 + floor(bpt)) removes nothing."""
+    from pyvc.spec import ListView
+    from pyvc.values import INT
+    from .indexed_assembly import idx_wf, row_start
+
+    st, rows = _pre_state_rows("rows")
+    idx = ListView(st, z3.Int("idx"), INT)
+    n = rows.len
+    E, lo, hi = z3.Ints("E lo hi")
+    bpt = z3.Real("bpt")
+    T = rows.cum(n)
+    a, b = z3.IntVal(1), E
+    hit_k = lambda k: z3.And(idx[k] >= a, row_start(idx, k) <= b)
+    contig_hit = lambda k: z3.And(0 <= k, k < n, hit_k(k), rows[k].is_frag)
+    k = z3.Int("k")
+    pc = [
+        idx_wf(rows, idx), n >= 1, bpt >= 1, rows[0].is_frag, rows[n - 1].is_frag,
+        z3.ToReal(E) > z3.ToReal(T) - bpt, z3.ToReal(E) < z3.ToReal(T) + bpt, E >= 1,
+        z3.ToReal(rows[n - 1].length) >= bpt,
+        z3.ForAll([k], z3.Implies(z3.And(0 <= k, k < n), rows[k].length >= 1)),
+        # postcondition `window` of find_overlaps for a non-None result
+        0 <= lo, lo <= hi, hi < n, contig_hit(lo), contig_hit(hi),
+        z3.ForAll([k], z3.Implies(contig_hit(k), z3.And(lo <= k, k <= hi))),
+    ]
+    err = 1 + z3.ToInt(bpt)
+    start, end = row_start(idx, lo), idx[hi]  # postcondition `coordinates`
+    return [
+        ("first-row-is-hit", pc, contig_hit(z3.IntVal(0))),
+        ("last-row-is-hit", pc, contig_hit(n - 1)),
+        ("all-rows-returned", pc, z3.And(lo == 0, hi == n - 1)),
+        ("span-is-the-whole-scaffold", pc, z3.And(start == 1, end == T)),
+        # precondition of a discard in trim_large_overhangs (contract clauses start-row-discarded-iff /
+        # end-row-discarded-only-if-overhanging): overhang > error length - never true here
+        ("no-start-discard", pc, z3.Not(a - start > err)),
+        ("no-end-discard", pc, z3.Not(end - b > err)),
+    ]
